@@ -70,12 +70,37 @@ def run_case(case):
                 elif via == "case_runner_tuple":
                     x.case_runner(fn, tuple(cargs), [tuple(c) for c in cases],
                                   combos=bad, **opts)
-                else:
+                elif via == "combo_runner_to_ds":
                     x.combo_runner_to_ds(fn, bad, "out",
                                          cases=[dict(zip(cargs, c))
                                                 for c in cases],
                                          constants=dict(consts) or None,
                                          verbosity=0)
+                elif via in ("runner_run_combos", "runner_run_cases",
+                             "harvester_combos"):
+                    r_ = x.Runner(fn, "out", fn_args=tuple(cargs),
+                                  constants=dict(consts) or None)
+                    dcs_ = [dict(zip(cargs, c)) for c in cases]
+                    if via == "runner_run_combos":
+                        r_.run_combos(bad, cases=dcs_, verbosity=0)
+                    elif via == "runner_run_cases":
+                        r_.run_cases(dcs_, combos=tuple(
+                            (k_, list(v_)) for k_, v_ in bad.items()),
+                            verbosity=0)
+                    else:
+                        x.Harvester(r_).harvest_combos(bad, cases=dcs_,
+                                                       verbosity=0)
+                else:
+                    with core.scratch("xv-c02-") as tmp_:
+                        crop_ = x.Crop(fn=fn, name="clash", parent_dir=tmp_)
+                        if via == "crop_sow_combos":
+                            crop_.sow_combos(bad, cases=[
+                                dict(zip(cargs, c)) for c in cases],
+                                verbosity=0)
+                        else:
+                            crop_.sow_cases(tuple(cargs),
+                                            [tuple(c) for c in cases],
+                                            combos=bad, verbosity=0)
         except ValueError:
             require(not models.LOG, "clash-rejected-after-calls",
                     f"{len(models.LOG)} calls before rejection")
@@ -224,7 +249,8 @@ def strategy(draw):
         case["clash"] = draw(st.integers(1, 4))
         case["clash_via"] = draw(st.sampled_from(
             ["combo_runner", "case_runner_dict", "case_runner_tuple",
-             "combo_runner_to_ds"]))
+             "combo_runner_to_ds", "runner_run_combos", "runner_run_cases",
+             "harvester_combos", "crop_sow_combos", "crop_sow_cases"]))
         case["spelling"] = "dict"
     return case
 
